@@ -36,47 +36,60 @@ theorem C14_ok_well_typed (env : Env) (hreg : RegWT env.reg) (bs : Bytes) (v : V
   obtain ⟨h1, h2, h3⟩ := (okInv env _).c bs v rest h
   exact ⟨h3 hreg, h1, by omega⟩
 
-/- FULL STATEMENT (not proved, and false of the model and of the code as it stands):
+/-- Cost accounting for EVERY byte string, EVERY registry and EVERY keyword / oracle behaviour:
+with `A = 8 + (largest field count of a registered class)`, decoding `bs` requests at most
+`A * (len(bs) + reparsed) + 1` units, whatever the outcome (value or exception), where `reparsed`
+is the number of bytes the decoder parses a second time: the signed payloads of
+`HandshakeServerHelloMessage`s whose signature verified (connection.py:716-723).  In particular
+a declared length of 2**14 elements, a negative length or an announced field count of 2**63
+costs no more than the bytes actually present. -/
+theorem C14_cost_accounting (env : Env) (A : Nat) (hA : 8 ≤ A)
+    (hF : ∀ tid d, lookup env.reg tid = some (.object d) → d.length + 8 ≤ A) (bs : Bytes) :
+    decodeCost env bs ≤ A * (bs.length + decodeReparsed env bs) + 1 :=
+  cost_le env A ⟨hA, hF⟩ _ bs
+
+/-- Nothing is parsed twice unless the caller passed the `server_public_key` keyword AND a
+signature verified: for every decode without that keyword (all server-side decodes, HTTP bodies)
+and every decode in which no signature verifies, `reparsed = 0`. -/
+theorem C14_reparse_zero (env : Env) (hU : env.serverKey = none ∨ ∀ k s p, env.verify k s p ≠ .ok ())
+    (bs : Bytes) : decodeReparsed env bs = 0 :=
+  re_zero env hU _ bs
+
+/- FULL STATEMENT of linearity in the input alone (not proved, and false of the model and of the
+   code as it stands):
      ∀ env A, 8 ≤ A → (∀ tid d, lookup env.reg tid = some (.object d) → d.length + 8 ≤ A) →
        ∀ bs, decodeCost env bs ≤ A * bs.length + 1
-   What is missing: when `loadb` is given the `server_public_key` keyword AND a signature
-   verifies, `HandshakeServerHelloMessage.deserialize` parses the signed payload a second time
-   (connection.py:718-723).  With `server_public_key=None` the verifying key is the one sent in
-   the message, so an unauthenticated "server" can nest signed hellos inside the payload; each
-   level re-reads what it encloses and the cost is (bytes) x (nesting depth), depth <= bytes/170
-   (a level needs a 91-byte key and a ~70-byte signature) and <= CPython's recursion limit.
-   Measured on the real code on every run (evidence notes `client_side_nested_serverhello`):
-   cost/byte 1.4, 2.9, 4.8, 8.8 at depth 1, 4, 8, 16.  Within one UDP datagram (<= 1472 bytes)
-   the depth is <= 8.  The theorem below covers every decode without that keyword (all
-   server-side decodes, HTTP bodies) and every decode in which no signature verifies. -/
+   What is missing is exactly the `reparsed` term of `C14_cost_accounting`: with
+   `server_public_key=None` the verifying key is the one sent in the message, so an
+   unauthenticated "server" can nest signed hellos inside the payload; each level re-reads what
+   it encloses and the cost is (bytes) x (nesting depth), depth <= bytes/170 (a level needs a
+   91-byte key and a ~70-byte signature) and <= CPython's recursion limit.  Measured on the real
+   code on every run (evidence notes `client_side_nested_serverhello`): cost/byte 1.4, 2.9, 4.8,
+   8.8 at depth 1, 4, 8, 16; within one UDP datagram (<= 1472 bytes) the depth is <= 8. -/
 
-/-- Cost is linear in the input, for EVERY byte string and EVERY registry: with
-`A = 8 + (largest field count of a registered class)`, decoding `bs` requests at most
-`A * len(bs) + 1` units, whatever the outcome (value or exception).  In particular a declared
-length of 2**14 elements, a negative length or an announced field count of 2**63 costs no more
-than the bytes actually present.  Hypothesis `hU`: the decode is a server-side one (no
-`server_public_key` keyword, as in `_recvClientHello` / `_recvChallengeResponse` / HTTP
-`loadb`), or no signature verifies; otherwise a `HandshakeServerHelloMessage` makes the decoder
-parse its signed payload a second time (see `C14_cost_client`). -/
+/-- Cost is linear in the input alone whenever nothing is re-parsed (`C14_reparse_zero`):
+at most `A * len(bs) + 1` units, whatever the outcome. -/
 theorem C14_cost_linear_partial (env : Env) (A : Nat) (hA : 8 ≤ A)
     (hF : ∀ tid d, lookup env.reg tid = some (.object d) → d.length + 8 ≤ A)
     (hU : env.serverKey = none ∨ ∀ k s p, env.verify k s p ≠ .ok ())
     (bs : Bytes) :
-    decodeCost env bs ≤ A * bs.length + 1 :=
-  cost_le env A ⟨hA, hF, hU⟩ _ bs
+    decodeCost env bs ≤ A * bs.length + 1 := by
+  have h1 := C14_cost_accounting env A hA hF bs
+  rw [C14_reparse_zero env hU bs] at h1
+  simpa using h1
 
 /-- The successful part of the same accounting: a decode that returns has cost at most `A` per
-byte it CONSUMED (the unread rest is not paid for). -/
-theorem C14_cost_consumed_partial (env : Env) (A : Nat) (hA : 8 ≤ A)
+byte it CONSUMED or re-parsed (the unread rest is not paid for). -/
+theorem C14_cost_consumed (env : Env) (A : Nat) (hA : 8 ≤ A)
     (hF : ∀ tid d, lookup env.reg tid = some (.object d) → d.length + 8 ≤ A)
-    (hU : env.serverKey = none ∨ ∀ k s p, env.verify k s p ≠ .ok ())
     (bs : Bytes) (v : Value) (rest : Bytes) (h : decode env bs = .ok (v, rest)) :
-    decodeCost env bs + A * rest.length ≤ A * bs.length := by
-  have := (costInv env A ⟨hA, hF, hU⟩ (bs.length + 1)).c bs
+    decodeCost env bs + A * rest.length ≤ A * (bs.length + decodeReparsed env bs) := by
+  have := (costInv env A ⟨hA, hF⟩ (bs.length + 1)).c bs
   unfold CostOK at this
   unfold decode decodeF at h
   rw [h] at this
-  simpa [decodeCost] using this
+  rw [Nat.mul_add]
+  simpa [decodeCost, decodeReparsed] using this
 
 /-! ### the handshake messages a server decodes from unauthenticated peers
 
